@@ -37,6 +37,9 @@ CHECKS = {
  "C07": dict(cat="model_checking", tech="TLA+ functional-consistency / symmetry specification over Chess.tla (Tr_Eval.tla) + TLC validation of evaluation traces incl. a TEXEL_VERIF hook inside real searches",
    text="The implementation supplies the numbers, the specification (FlipColour, MirrorX and position identity of Chess.tla) decides which evaluations must agree. TLC validates pairs: incrementally maintained network state after make/unmake/null-move/copy histories vs evaluation from scratch with empty caches, the same position under another contempt through a polluted cache, every k-th evaluation performed inside real searches (observation hook) vs from scratch, colour flip with negated contempt, left-right mirror without castling rights, and every SIMD build variant the CPU supports vs the generic build, for 3-4 synthetic networks.",
    note="Trusted: TLC, Chess.tla symmetries, harness/h_eval.cpp. Builds use -O3 like upstream (see DESIGN.md: g++ 12 -O2 miscomputes the generic path)."),
+ "C20": dict(cat="model_checking", tech="TLA+ specification of constraint satisfiability (Csp.tla: declarative and algorithmic definitions cross-checked exhaustively by TLC) + TLC trace validation of the real solver",
+   text="Csp.tla defines satisfiability of a system of ranges, parities and difference constraints twice: SatDecl (existence of an assignment) and SatAlg (parity case split, halving, bounds fixed point). TLC checks SatDecl = SatAlg on every system of a small bound (62k systems quick, 174k thorough) and on every small system of the traces, then judges the real CspSolver on seeded systems of 1..10 variables inside [-16,47] under all four value-preference orders: reported solvability = Sat(sys) and each returned assignment satisfies every domain and constraint.",
+   note="Trusted: TLC, Csp.tla. The algorithmic oracle is used alone only when the assignment space exceeds 3000 points."),
 }
 
 NOT_APPLICABLE = {
